@@ -29,7 +29,7 @@ LEVEL = "exploration"
 MAIN_CLAUSES = ["list_alignment", "ledger", "flows_nonneg_finite", "dairy_to_meat_transfer", "labour_budget",
                 "slaughter_le_available", "target_floor"]
 RULE = (
-    "history = 8 (quick) / 12 (thorough) real herd runs main(country, feed, grass, strategy, overrides, "
+    "history = 8 (quick) / 24 (thorough) real herd runs main(country, feed, grass, strategy, overrides, "
     "remove_first_month=0, per-head table | None); per run a seeded country (164 + SWT alias + world aggregate), "
     "strategy, horizon 24..120, serving order, optional head-count overrides and explicit monthly feed/grass "
     "deliveries (base k x month-0 need, k in [0,3], shapes, delivery faults lost/half/double/burst/delay/shift/"
@@ -58,8 +58,8 @@ COMPONENTS = {
     "stub": [],
 }
 TIERS = {
-    "quick": {"histories": 448, "runs": 8, "budget_s": 100, "timeout": 120, "batch": 224, "shrink_s": 60},
-    "thorough": {"histories": 9600, "runs": 12, "budget_s": 800, "timeout": 180, "batch": 480, "shrink_s": 120},
+    "quick": {"histories": 320, "runs": 8, "budget_s": 150, "timeout": 120, "batch": 160, "shrink_s": 40},
+    "thorough": {"histories": 3000, "runs": 24, "budget_s": 840, "timeout": 300, "batch": 250, "shrink_s": 60},
 }
 
 MAX_REPORTS = 12
@@ -133,6 +133,9 @@ def monitor(t, V):
 
         # ---- ledger
         V.ev("ledger", N)
+        probes["ledger_months_clamped_at_zero"] = probes.get("ledger_months_clamped_at_zero", 0) + int((raw < -tol).sum())
+        probes["ledger_months_herd_empty"] = probes.get("ledger_months_herd_empty", 0) + int((pop[1:] == 0).sum())
+        probes["ledger_months_with_starvation_deaths"] = probes.get("ledger_months_with_starvation_deaths", 0) + int((starv > 0).sum())
         if np.isfinite(resid).all():
             V.resid("ledger", float(np.max(resid / np.maximum(scale, 1.0))))
         m = _first(bad)
